@@ -529,18 +529,21 @@ func c01Spaces(c *fw.Ctx) {
 								used = ra.(*dns.OPT)
 							}
 							used.Option = rb.(*dns.OPT).Option
+							// measured and packed by Msg.Pack first: PackRR would bring the header's RDLENGTH up to date
+							stale := used.Hdr.Rdlength
+							l := dns.Len(used)
+							m := &dns.Msg{MsgHdr: dns.MsgHdr{Id: 1, Response: true}, Extra: []dns.RR{used}}
+							ml := m.Len()
+							mb, err := m.Pack()
+							if err != nil || !bytes.Equal(mb[12:], wb) {
+								r.Fail("opt-edited/msg-pack", "Msg.Pack with an OPT that held options %v (header RDLENGTH %d, mode %d) and was given %v: %v", lists[ai], stale, mode, lists[bi], err)
+							} else if ml < len(mb) || l < len(wb) {
+								r.Fail("opt-edited/len", "Len(rr) = %d / Msg.Len = %d for %d / %d octets packed: an OPT that held options %v (header RDLENGTH %d) and was given %v", l, ml, len(wb), len(mb), lists[ai], stale, lists[bi])
+							}
 							buf := make([]byte, 70000)
 							n, err := dns.PackRR(used, buf, 0, nil, false)
 							if err != nil || !bytes.Equal(buf[:n], wb) {
 								r.Fail("opt-edited/pack", "an OPT that held options %v (mode %d) and was given %v packs to %x, %v; reference %x", lists[ai], mode, lists[bi], buf[:max(n, 0)], err, wb)
-								continue
-							}
-							if l := dns.Len(used); l < n {
-								r.Fail("opt-edited/len", "Len = %d < packed %d for an OPT that held options %v and was given %v", l, n, lists[ai], lists[bi])
-							}
-							m := &dns.Msg{MsgHdr: dns.MsgHdr{Id: 1, Response: true}, Extra: []dns.RR{used}}
-							if mb, err := m.Pack(); err != nil || !bytes.Equal(mb[12:], wb) {
-								r.Fail("opt-edited/msg-pack", "Msg.Pack with an OPT that held options %v and was given %v: %v", lists[ai], lists[bi], err)
 							}
 						}
 					}
